@@ -14,6 +14,9 @@ inductive ErrC where
   | undeclared (n : String)
   | nosuchkey | notcomparable | unsupportedOp | badIndex | badKey | badArgc | badType
   | missingTarget | functionError | badTarget | other
+  /-- not an `ExecutionError`: the model needs the answer of an external primitive (the `regex`
+  crate) that the case did not ship; the harness re-sends the case with the answer -/
+  | needRegex (pattern text : String)
 deriving Repr, DecidableEq, Inhabited
 
 inductive Outcome (α : Type) where
